@@ -54,6 +54,9 @@ type icache struct {
 
 func (i *icache) set(k string, v Account) {
 	cpy := v
+	// the key outlives the request it was taken from, whose buffers are
+	// reused for the next request
+	k = strings.Clone(k)
 	i.Lock()
 	i.items[k] = item{
 		exp:   time.Now().Add(i.expire),
@@ -79,11 +82,14 @@ func (i *icache) update(k string, props MutableProps) {
 	item, found := i.items[k]
 	if found {
 		updateAcc(&item.value, props)
+		// the new secret and the key are parts of the request, whose
+		// buffers are reused for the next request: keep copies
+		item.value.Secret = strings.Clone(item.value.Secret)
 
 		// refresh the expiration date
 		item.exp = time.Now().Add(i.expire)
 
-		i.items[k] = item
+		i.items[strings.Clone(k)] = item
 	}
 }
 
